@@ -4,6 +4,7 @@ mod c06;
 mod c07;
 mod c08;
 mod c09;
+mod c10;
 mod c11;
 mod c12;
 mod synth;
@@ -18,6 +19,7 @@ fn main() {
         Some("c07") => c07::main(&args[1..]),
         Some("c08") => c08::main(&args[1..]),
         Some("c09") => c09::main(&args[1..]),
+        Some("c10") => c10::main(&args[1..]),
         Some("c11") => c11::main(&args[1..]),
         Some("c12") => c12::main(&args[1..]),
         Some("c13") => c13::main(&args[1..]),
